@@ -278,12 +278,14 @@ func run(c *core.Ctx) {
 		return b
 	}
 
+	// slotNotBefore: the claimed generation time of the slot certificate of the next cases (zero = unset)
+	var slotNotBefore time.Time
 	// emit runs Attest on a slot certificate with the given signature bytes.
 	emit := func(class string, d *device, label int, body, sig []byte, note string) {
 		if c.Skip() {
 			return
 		}
-		slot := &x509.Certificate{SignatureAlgorithm: x509.SignatureAlgorithm(label), RawTBSCertificate: body, Signature: sig}
+		slot := &x509.Certificate{SignatureAlgorithm: x509.SignatureAlgorithm(label), RawTBSCertificate: body, Signature: sig, NotBefore: slotNotBefore}
 		var aerr error
 		obs := ""
 		if p, msg := core.Guard(func() { aerr = attestor.Attest(d.cert, slot) }); p {
@@ -496,6 +498,27 @@ func run(c *core.Ctx) {
 		}
 		body := newBody()
 		emitEM("chain-"+d.name, d, int(x509.MD5WithRSA), body, buildEM(k, md5Spec.withNul, digestsOf(body)["MD5"]), "MD5 label, device certificate "+d.name)
+		// the slot certificate claims a generation time inside the device certificate's own validity window
+		// (the chain must be judged at the current time, not at a time the certificate under test names)
+		for _, off := range []time.Duration{time.Minute, 12 * time.Hour} {
+			slotNotBefore = d.cert.NotBefore.Add(off)
+			hs := &hashes[1]
+			body := newBody()
+			emitEM("chain-"+d.name+"-slot-dated-inside-device-window", d, int(hs.rsaAlgo), body, buildEM(k, hs.withNul, digestsOf(body)[hs.name]),
+				"valid block, device certificate "+d.name+", slot NotBefore "+slotNotBefore.UTC().Format(time.RFC3339))
+		}
+		slotNotBefore = time.Time{}
+	}
+	// genuine devices with slot certificates dated in the past and in the future
+	for _, d := range good[:1] {
+		k := (d.rsaKey.N.BitLen() + 7) / 8
+		for _, t := range []time.Time{now.Add(-20 * 365 * 24 * time.Hour), now.Add(20 * 365 * 24 * time.Hour), time.Unix(0, 0)} {
+			slotNotBefore = t
+			hs := &hashes[1]
+			body := newBody()
+			emitEM("genuine-slot-dated-elsewhere", d, int(hs.rsaAlgo), body, buildEM(k, hs.withNul, digestsOf(body)[hs.name]), "valid block, genuine device, slot NotBefore "+t.UTC().Format(time.RFC3339))
+		}
+		slotNotBefore = time.Time{}
 	}
 	for label := 0; label <= 17; label++ {
 		body := newBody()
